@@ -21,16 +21,23 @@ import pkg
 from core import enc_str
 
 STRS = ["n1", "A b", "x&<y>", "é漢", "q\"uote", "it's", "S_1", "true"]
+# text arguments are turned into text:tab / text:line-break / text:s children with single blanks between them
+WS_TEXTS = ["\t \tz", "\n \n", "  \t \tz", "a  b", " lead and trail ", "l1\nl2\t x", "\t \n \t"]
+TEXT_PARAMS = ("text", "text_or_element", "body", "title", "title_text", "citation", "list_content")
 SKIP_PARAMS = {"formatted", "parent", "from_document", "kwargs", "tag", "tag_or_elem"}
-# parameters that are stored in child elements or drive the structure, not an attribute of the same name
-STRUCTURAL = {"text", "text_or_element", "body", "list_content", "value", "annotation", "title", "title_text", "title_text_style", "citation",
-              "width", "height", "connected_shapes", "glue_points", "p1", "p2", "position", "size", "crange", "table_name", "creator", "date", "time",
-              "delay", "date_adjust", "time_adjust", "print_ranges", "color", "background_color", "url", "value_type", "cell_type", "currency",
-              "number", "title_style", "entry_style", "display"}
+# (class, parameter) pairs whose argument is not what the property of the same name reports, by design
+NOT_EXPOSED = {
+    ("BackgroundImage", "position"),                      # a position keyword, the generator gives a coordinate pair
+    ("Cell", "currency"), ("Cell", "text"), ("Cell", "value"), ("Cell", "cell_type"),     # typed value: C06 covers it
+    ("VarSet", "display"), ("VarSet", "text"),            # display=False stores "none" and hides the text
+    ("Table", "width"), ("Table", "height"),              # initial size, at least one cell is made
+}
 
 
 def gen_value(rng, name: str, ann: str, cls_name: str):
     a = ann.replace(" ", "")
+    if name in TEXT_PARAMS and "str" in a and rng.random() < 0.4:
+        return rng.choice(WS_TEXTS)
     if name == "family":
         return rng.choice(["paragraph", "text", "table-cell", "graphic", "list", "master-page", "font-face", "page-layout", "number"])
     if name == "ref_format":
@@ -43,6 +50,8 @@ def gen_value(rng, name: str, ann: str, cls_name: str):
         return rng.choice(["footnote", "endnote"])
     if name == "crange":
         return rng.choice(["A1:B2", (0, 0, 1, 1), "C3"])
+    if name == "print_ranges":
+        return rng.choice([None, ["A1:B2"], ["A1:B2", "C3:D4"], "E1:F2"])
     if name == "table_name":
         return rng.choice(["T1", "My Table"])
     if name in ("position", "size", "p1", "p2"):
@@ -91,6 +100,16 @@ def same(arg, got) -> bool:
         return arg is None or arg == "" or arg is False
     if isinstance(arg, bool):
         return got is arg or got == str(arg).lower()
+    if isinstance(arg, datetime):
+        from odfdo.datatype import DateTime
+
+        return got == arg or got == DateTime.encode(arg)
+    if isinstance(got, list) and not isinstance(arg, list):
+        return got == [arg]
+    if isinstance(arg, timedelta):
+        from odfdo.datatype import Duration
+
+        return got == Duration.encode(arg)
     if isinstance(got, bool):
         return False
     if arg == got or str(arg) == str(got):
@@ -175,8 +194,12 @@ def run(chk: core.Check) -> None:
             # ---- arguments exposed through the properties ------------------------------------------
             bad = None
             for n, v in kwargs.items():
-                if v is None or n in STRUCTURAL or n not in pnames and not isinstance(getattr(cls, n, None), property):
+                if v is None or (cls.__name__, n) in NOT_EXPOSED or n not in pnames and not isinstance(getattr(cls, n, None), property):
                     continue            # (None = "not specified": the class may apply its default)
+                if n == "text" and isinstance(v, str) and (v != v.strip() or "  " in v or "\t" in v or "\n" in v):
+                    continue            # blanks become text:s / text:tab / text:line-break children, .text is the first text node only
+                if n == "number" and v in (0, 1):
+                    continue            # text:s without text:c is one blank
                 if cls.__name__ in ("Style", "BackgroundImage") and n not in ("name", "display_name", "family", "parent_style"):
                     continue            # the other arguments of Style apply to one family only
                 if n == "repeated" and v in (0, 1):
@@ -226,13 +249,54 @@ def run(chk: core.Check) -> None:
                 chk.fail({**case, "exception": repr(ex), "clause": "clone-class"}, f"{cls.__name__}.clone raised {type(ex).__name__}")
                 continue
             # the generic attribute properties against the model (one request per string / bool / None value)
-            for k in pnames[:4]:
-                v = p1[k]
-                if isinstance(v, (str, bool)) or v is None:
-                    word = "N" if v is None else ("B1" if v is True else "B0" if v is False else "S" + enc_str(v))
-                    attr = e._Element__element.get(next((core_tag(p.attr) for kk in inspect.getmro(cls) for p in (getattr(kk, "_properties", ()) or ()) if p.name == k), ""))
-                    aw = "N" if attr is None else "S" + enc_str(attr)
-                    reqs.append((f"rg get {aw}", f"ok {word}", {**case, "property": k}))
+            model_reqs(reqs, cls, e, pnames, p1, case)
+            # ---- properties set afterwards, on each access path: the constructed element, its re-parsed serialisation and its
+            # clone must take the same attribute (whatever namespace it lives in) and still serialise to XML that parses back
+            if pnames:
+                ks = rng.sample(pnames, min(len(pnames), 3))
+                vals = {k: rng.choice(["v1", "A b", True, "x&y"]) for k in ks}
+                paths = {"constructed": e, "re-parsed": e2, "clone": c}
+                out = {}
+                for path, obj in paths.items():
+                    try:
+                        for k, v in vals.items():
+                            setattr(obj, k, v)
+                        back = Element.from_tag(obj.serialize())
+                        out[path] = (type(back).__name__, cx(back), repr(read_props(back, ks)))
+                    except Exception as ex:  # noqa: BLE001
+                        out[path] = f"<raises {type(ex).__name__}>"
+                chk.count("set-after", "same on the three paths" if len({repr(o) for o in out.values()}) == 1 else "differs")
+                if isinstance(out["constructed"], str):
+                    if any(not isinstance(o, str) for o in out.values()):
+                        chk.fail({**case, "clause": "set-after-access-path", "set": {k: repr(v) for k, v in vals.items()}, "outcome": {k: (o if isinstance(o, str) else "ok") for k, o in out.items()}},
+                                 f"{cls.__name__}: setting properties raises on one access path only")
+                    continue
+                for path in ("re-parsed", "clone"):
+                    if out[path] != out["constructed"]:
+                        chk.fail({**case, "clause": "set-after-access-path", "path": path, "set": {k: repr(v) for k, v in vals.items()},
+                                  "outcome": out[path] if isinstance(out[path], str) else out[path][1].decode()[:200]},
+                                 f"{cls.__name__}: properties set on the {path} element do not serialise / parse back like on the constructed one")
+                        break
+    # ---- every class that asks for a tag holds it: a class defined with a tag of its own (whatever the registry ended up
+    # with) parses back from its own serialisation
+    from odfdo.element import _get_lxml_tag
+
+    def subs(k):
+        for sub in k.__subclasses__():
+            yield sub
+            yield from subs(sub)
+
+    chk.classifiers["tab_stop_tag_claimed_twice"] = lambda case: case.get("clause") == "registration-lost" and case.get("class") == "TabStopStyle" and case.get("holder") == "Style"
+    for k in sorted(set(subs(Element)), key=lambda k: k.__name__):
+        tag = k.__dict__.get("_tag") or ""
+        if not k.__module__.startswith("odfdo.") or ":" not in tag or tag.endswith("-notodf"):
+            continue
+        holder = _class_registry.get(_get_lxml_tag(tag))
+        chk.case(("own-tag", k.__name__), nontrivial=True)
+        if holder is None or not (holder is k or issubclass(k, holder) and k in classes):
+            # (a subclass registered for other tags of its own may share the base tag with its parent)
+            chk.fail({"class": k.__name__, "tag": tag, "holder": getattr(holder, "__name__", None), "clause": "registration-lost"},
+                     f"{k.__name__} is defined for {tag} but parsing that tag gives {getattr(holder, '__name__', None)}")
     dispatch_part(chk, rng, _class_registry, reqs)
     # the registry itself against the dumped table
     for tag, cls in _class_registry.items():
@@ -241,6 +305,16 @@ def run(chk: core.Check) -> None:
     for (q, exp, case), ans in zip(reqs, answers):
         if exp != ans:
             chk.disagree({**case, "line": q[:200]}, f"impl {exp[:200]!r} != model {ans[:200]!r}")
+
+
+def model_reqs(reqs, cls, e, pnames, p1, case):
+    for k in pnames[:4]:
+        v = p1[k]
+        if isinstance(v, (str, bool)) or v is None:
+            word = "N" if v is None else ("B1" if v is True else "B0" if v is False else "S" + enc_str(v))
+            attr = e._Element__element.get(next((core_tag(p.attr) for kk in inspect.getmro(cls) for p in (getattr(kk, "_properties", ()) or ()) if p.name == k), ""))
+            aw = "N" if attr is None else "S" + enc_str(attr)
+            reqs.append((f"rg get {aw}", f"ok {word}", {**case, "property": k}))
 
 
 def core_tag(qname: str) -> str:
